@@ -619,6 +619,20 @@ def run(ctx):
             dec[adt] = ctx.saw(b)
         r.check({"ValueBackpressure", "MapBackpressure"} <= set(dec), "DownlinkBackpressure/both-kinds", "-", "value and map backpressure strategies each name their command decoder", "DownlinkBackpressure implemented for %s" % sorted(dec))
 
+    with ctx.rule("C07.R14", "T2", "when either I/O task of a downlink runtime ends, the other is told to stop", floor=1) as r:
+        # The read and the write task share one connection. Whichever ends first - the read task on unlinked / a bad frame / the vote, the write task
+        # also on a failed write or flush of the outgoing half - the kill switch must be triggered before the other one is waited for: otherwise a
+        # runtime whose outgoing half has died keeps delivering events, accepts consumers, loses every command and never says `unlinked`.
+        aw = [b for b in rt.all_bodies() if b.defpath.endswith("downlink::await_io_tasks::{closure#0}")]
+        if len(aw) != 1:
+            raise AnchorMissing("downlink::await_io_tasks (found %d)" % len(aw))
+        aw = ctx.saw(aw[0])
+        trg = {c.block for c in aw.calls if c.name == "trigger" and "trigger::Sender" in (c.defpath or "")}
+        ok, wit = aw.must_pass([0], trg) if trg else (False, None)
+        r.check(ok, "await_io_tasks/kill-switch-on-every-way-out", where(aw), "the kill switch is triggered whichever task finishes first",
+                "await_io_tasks can wait for the remaining task without triggering the kill switch (path %s): when the write task ends first - a failed write or flush of the outgoing channel - "
+                "the read task, the attachment task and every consumer carry on as if the link were healthy; no consumer is sent `unlinked`" % (wit,))
+
     with ctx.rule("C07.R13", "T1", "the read task marks its consumers flushed only when the flush ran to completion (or there is nobody to flush)", floor=2) as r:
         # Events are fed into each consumer's framed writer; the flag that chooses between `wait` and `wait and flush` records whether a flush is still
         # owed. immediate_or_join skips the flush when the next input is already there and says so (None). Marking the consumers flushed regardless
